@@ -1,7 +1,7 @@
 SPECIFICATION Spec
 CONSTANTS
   Thorough = FALSE
-  Dev_h41 = FALSE
+  Dev_h41 = TRUE
   Emit = FALSE
 INVARIANTS CalendarOk RoundTrip FmtRefines ParseRefines FunctionForm Terminates
 CHECK_DEADLOCK FALSE
